@@ -384,6 +384,11 @@ def main_run(prop: str, tier: str, seed: int, replay: str | None = None) -> int:
             inconclusive.append(f"mandatory bucket '{name}' never reached")
     if evaluations == 0:
         inconclusive.append("no cases evaluated")
+    if counters.get("mon.cmp_tainted", 0) > max(counters.get("mon.cmp", 0), 1):
+        # the shadow monitor stood down for most circuits (private state written from outside the API): what it did
+        # not compare it cannot vouch for
+        inconclusive.append(f"{counters['mon.cmp_tainted']} shadow comparisons skipped as tainted against "
+                            f"{counters.get('mon.cmp', 0)} made")
 
     wall = time.monotonic() - t0
     EVIDENCE.mkdir(parents=True, exist_ok=True)
